@@ -43,6 +43,8 @@ type topoOp struct {
 	// Swap: instead of re-parenting, the replica exchanges its address with a replica of another master (both keep their node
 	// id and their master; only the address each id is announced under changes)
 	Swap bool `json:"swap,omitempty"`
+	// Failover: instead, the To-th master dies and its first replica is promoted (the failed master stays listed without slots)
+	Failover bool `json:"failover,omitempty"`
 }
 
 type env struct {
@@ -321,7 +323,7 @@ func TestRandomCommands(t *testing.T) {
 		c.InlineEvery = rapid.SampledFrom([]int{0, 0, 1, 2, 3}).Draw(t, "inline")
 		if c.Masters >= 2 && c.Replicas >= 1 && rapid.IntRange(0, 2).Draw(t, "topo") == 0 {
 			for k, m := 0, rapid.IntRange(1, 2).Draw(t, "ntopo"); k < m; k++ {
-				c.Topo = append(c.Topo, topoOp{At: rapid.IntRange(0, n-1).Draw(t, "at"), Replica: rapid.IntRange(0, 5).Draw(t, "trep"), To: rapid.IntRange(0, 2).Draw(t, "tto"), Swap: rapid.Bool().Draw(t, "swap")})
+				c.Topo = append(c.Topo, topoOp{At: rapid.IntRange(0, n-1).Draw(t, "at"), Replica: rapid.IntRange(0, 5).Draw(t, "trep"), To: rapid.IntRange(0, 2).Draw(t, "tto"), Swap: rapid.Bool().Draw(t, "swap"), Failover: rapid.IntRange(0, 3).Draw(t, "failover") == 0})
 			}
 		}
 		for i := 0; i < n; i++ {
@@ -384,6 +386,23 @@ func runCase(c cmdCase) (bool, *verdict) {
 			sort.Ints(reps)
 			r := reps[op.Replica%len(reps)]
 			nm := ms[op.To%len(ms)]
+			if op.Failover {
+				w.Lock()
+				w.ListFailed = true
+				w.Unlock()
+				if w.Failover(ms[op.To%len(ms)]) < 0 {
+					continue
+				}
+				// requests fail until the proxy has learned the new layout; only then are arrivals judged again
+				s0 := e.px.Counter("upstream.slots_refresh.success_total")
+				for dl := time.Now().Add(10 * time.Second); e.px.Counter("upstream.slots_refresh.success_total") < s0+2 && time.Now().Before(dl); {
+					time.Sleep(2 * time.Millisecond)
+				}
+				if c.Strategy > 0 {
+					nt = true
+				}
+				continue
+			}
 			w.Lock()
 			cur := w.Nodes[r].Master
 			if op.Swap {
